@@ -228,9 +228,10 @@ def run(ctx):
         items += [('join_on', 'mysql', 1, 2, 2), ('case_when', 'mysql', 1, 2, 2), ('select_where', 'postgres', 2, 1, 2), ('select_where', 'sqlite', 2, 1, 2)]
     else:
         # add_option(None) members at every level ('all') only where the history is short; the deeper items keep them in the top group of the first call
-        items += [('select_where', 'mysql', 2, 2, 2, 'all'), ('select_where', 'mysql', 2, 2, 3, 'top'), ('select_where', 'mysql', 3, 1, 2, 'top'), ('select_where', 'postgres', 2, 2, 2, 'top'), ('select_where', 'sqlite', 2, 2, 2, 'top')]
+        items += [('select_where', 'mysql', 1, 2, 2, 'all'), ('select_where', 'mysql', 2, 2, 2, 'top'), ('select_where', 'mysql', 1, 2, 3, 'top'), ('select_where', 'mysql', 3, 1, 2, 'top'), ('select_where', 'postgres', 2, 2, 2, 'top'), ('select_where', 'sqlite', 2, 2, 2, 'top')]
         for c in ('select_having', 'update_where', 'delete_where'): items.append((c, 'mysql', 2, 2, 2, 'top'))
-        items += [('join_on', 'mysql', 1, 3, 2, 'top'), ('join_on', 'mysql', 1, 2, 2, 'all'), ('case_when', 'mysql', 1, 3, 2, 'top'), ('join_on', 'postgres', 1, 2, 2, 'all'), ('case_when', 'sqlite', 1, 2, 2, 'all')]
+        items += [('join_on', 'mysql', 1, 2, 3, 'top'), ('join_on', 'mysql', 1, 2, 2, 'all'), ('case_when', 'mysql', 1, 2, 3, 'top'),      # depth-3 trees did not finish within the thorough budget once present-optional members were added
+                   ('join_on', 'postgres', 1, 2, 2, 'all'), ('case_when', 'sqlite', 1, 2, 2, 'all')]
     ctx.bounds = {'items': ['%s/%s: history of <= %d calls, trees of depth <= %d and width <= %d' % it[:5] + (' (absent optional members: %s)' % it[5] if len(it) > 5 else '') for it in items],
                   'atoms': '%d atoms of three rendering kinds (column, comparison, function call); every atom is TRUE / FALSE / NULL (two solver Booleans)' % NATOMS,
                   'members': 'atom | nested group | add_option(None) (%s); any / all; negated or not; empty groups' % ('only in the top group of the first call' if quick else 'at every level')}
